@@ -111,7 +111,7 @@ def rtype_term(t, names):
 
 
 def peer_n(i):
-    return i if i >= 0 else 900 - i      # node index, or an identifier no node has
+    return i if i >= 0 else 900 - i      # node index, phantom (100 + seed), or an identifier no node has
 
 
 def msg_term(m, names):
@@ -133,7 +133,7 @@ def held_term(state, names):
 
 def holder_of_advert(op):
     h = op["holder"]
-    return h if 0 <= h < 10 else (998 if h == -3 else 900 + abs(h))
+    return h if 0 <= h < 10 else (998 if h == -3 else 100 + h)   # 100 + seed: how the harness names a non-node peer
 
 
 def model_term(c, o):
@@ -141,10 +141,10 @@ def model_term(c, o):
         return "false"
     names = Names()
     steps = o["steps"]
-    # routing tables are static after the leading connects: take them from the last connect step
+    SETUP = ("connect", "phantom", "set_range", "dump", "settle")
     nconn = 0
     for s in steps:
-        if s["eff"].get("op") == "connect":
+        if s["eff"].get("op") in ("connect", "phantom"):
             nconn += 1
         else:
             break
@@ -159,8 +159,20 @@ def model_term(c, o):
             for h in n["held"]:
                 if isinstance(h["type"], dict) and "nc" in h["type"]:
                     tab[canon(h["content"], names)] = names.hid(h["type"]["nc"])
-    for s in steps[nconn:]:
+    prev_state = base_state
+    pending_sets = []
+    for si, s in enumerate(steps[nconn:]):
         e = s["eff"]
+        before = steps[nconn + si - 1]["state"] if nconn + si > 0 else base_state
+        # the routing table / range (hence closest-k and candidates) a node works with in this step
+        # is the one it had when the step began; what changed during the previous step is applied first
+        sets = []
+        for i, n in enumerate(before):
+            if n["closest_k"] != prev_state[i]["closest_k"]:
+                sets.append("(OSetClosest %s %s)" % (cN(i), clist([cN(peer_n(p)) for p in n["closest_k"]])))
+            if n["candidates"] != prev_state[i]["candidates"]:
+                sets.append("(OSetCands %s %s)" % (cN(i), clist([cN(peer_n(p)) for p in n["candidates"]])))
+        prev_state = before
         if "deliver" in e:
             opt = "(ODeliver %s)" % msg_term(e["deliver"], names)
         elif "drop" in e:
@@ -175,7 +187,12 @@ def model_term(c, o):
             keys = clist(["(%s, %s)" % (cN(names.kid(k)), rtype_term(t, names)) for k, t in e["keys"]])
             opt = "(OAdvert %s %s %s)" % (cN(e["to"]), cN(holder_of_advert(e)), keys)
         else:
+            pending_sets += sets
             continue
+        before_pool = clist([msg_term(m, names) for m in (steps[nconn + si - 1]["pool"] if nconn + si > 0 else [])])
+        for st in pending_sets + sets:
+            ops.append("(%s, %s, %s)" % (st, before_pool, held_term(before, names)))
+        pending_sets = []
         pool = clist([msg_term(m, names) for m in s["pool"]])
         ops.append("(%s, %s, %s)" % (opt, pool, held_term(s["state"], names)))
     tabt = clist(["(%s, %s)" % (content_term(k), cN(v)) for k, v in tab.items()])
@@ -233,7 +250,7 @@ def oracle(c, o):
                     v.append(("advert-incomplete", "step %d: node %d advertised %s but holds %s" % (si, i, got, mine)))
         if "deliver" in e or e.get("op") == "advert":
             m = e.get("deliver") or {"t": "replicate", "to": e["to"], "holder": holder_of_advert(e) if e["holder"] >= 10 or e["holder"] < 0 else e["holder"], "keys": e["keys"]}
-            if m["t"] == "replicate" and m["to"] >= 0:
+            if m["t"] == "replicate" and 0 <= m["to"] < len(st):
                 j = m["to"]
                 close = m["holder"] in st[j]["closest_k"] and m["holder"] != j
                 acted = [x for x in fetch_events if x["node"] == j] or [x for x in sent if x["t"] == "fetch" and x["from"] == j]
@@ -243,7 +260,7 @@ def oracle(c, o):
                     for holder, key in x["keys_to_fetch"]:
                         if json.dumps(key, sort_keys=True) in pheld[x["node"]]:
                             v.append(("fetched-held", "step %d: node %d schedules a fetch of %s which it already holds" % (si, x["node"], key)))
-            if m["t"] == "fetch" and m["to"] >= 0:
+            if m["t"] == "fetch" and 0 <= m["to"] < len(st):
                 j, h = m["from"], m["to"]
                 k = json.dumps(m["key"], sort_keys=True)
                 served = pheld[h].get(k)
@@ -428,12 +445,54 @@ def gen_partial(rng, idx):
     return c
 
 
+def gen_ranged(rng, idx):
+    """the advertiser has a responsible range that leaves some of its records outside: it must still
+    advertise every record it holds"""
+    n = rng.choice([2, 3])
+    nodes = rng.sample(range(1, 60), n)
+    ops = connects(n, rng, True)
+    recs = [rec_chunk(idx * 10 + j) for j in range(rng.randint(2, 6))]
+    if rng.random() < 0.5:
+        recs.append(rec_pad(rng.randint(1, 30), 1, 1))
+    for r in recs:
+        ops.append(seed(0, r))
+    pivot = rng.choice(recs)
+    ops.append({"op": "set_range", "node": 0, "range": {"key": pivot["key"], "below": rng.random() < 0.7}})
+    if rng.random() < 0.3:
+        ops.append({"op": "set_range", "node": 1, "range": "max"})
+    for _ in range(rng.randint(1, 2)):
+        ops.append({"op": "replicate", "node": 0})
+        ops.append({"op": "run", "picks": [rng.randrange(0, 5) for _ in range(4)]})
+    return {"kind": "ranged", "nodes": nodes, "ops": ops, "full_rounds": 1}
+
+
+def gen_crowded(rng, idx):
+    """the receiver's routing table holds more than K peers and its range covers them all: a list is
+    acted on only when its holder is among the K closest"""
+    nodes = rng.sample(range(1, 60), 2)
+    phantoms = [x for x in rng.sample(range(60, 200), rng.randint(24, 60)) if x not in nodes]
+    ops = [{"op": "connect", "a": 0, "b": 1}, {"op": "connect", "a": 1, "b": 0},
+           {"op": "phantom", "node": 1, "seeds": phantoms}]
+    if rng.random() < 0.5:
+        ops.append({"op": "phantom", "node": 0, "seeds": rng.sample(phantoms, 6)})
+    for j in range(rng.randint(1, 4)):
+        ops.append(seed(0, rec_chunk(idx * 10 + j)))
+    ops.append({"op": "set_range", "node": 1, "range": "max"})
+    ops.append({"op": "replicate", "node": 0})
+    ops.append({"op": "run", "picks": [0]})
+    # also an explicit list from one of the routing-table-only peers
+    h = rng.choice(phantoms)
+    ops.append({"op": "advert", "to": 1, "holder": h, "keys": [[{"chunk": {"d": idx * 10 + 7}}, "chunk"]]})
+    ops.append({"op": "run", "picks": [0]})
+    return {"kind": "crowded", "nodes": nodes, "ops": ops, "full_rounds": 0}
+
+
 def gen(ctx):
     rng = ctx.rng
-    n = 60 if ctx.tier == "quick" else 1200
+    n = 70 if ctx.tier == "quick" else 1400
     cases = []
     for i in range(n):
-        f = [gen_missing, gen_missing, gen_divergent, gen_adverts, gen_partial][i % 5]
+        f = [gen_missing, gen_missing, gen_divergent, gen_adverts, gen_partial, gen_ranged, gen_crowded][i % 7]
         cases.append(f(rng, 100 + i))
     return cases
 
